@@ -19,7 +19,11 @@ Open Scope Z_scope.
 
 (* ---- inputs ---- *)
 Inductive fault := FNone | FNoLauncher | FScript | FSpawn | FAfterSpawn.
-Record tdesc := mkTd { d_uid : Z; d_fault : fault; d_to : bool }.
+(* d_stub: the launch process of the task outlives a kill (it is no process
+   group leader / the payload detached / it hangs in uninterruptible I/O): the
+   signals of LaunchMethod.cancel_task have no effect, the process ends only by
+   itself (environment step X) *)
+Record tdesc := mkTd { d_uid : Z; d_fault : fault; d_to : bool; d_stub : bool }.
 Record scenario := mkSc { sc_batches : list (list tdesc); sc_cancels : list (list Z) }.
 Inductive choice := CI | CC | CW | CT | CX (u code : Z).
 
@@ -40,8 +44,8 @@ Definition b2z (b : bool) : Z := if b then 1 else 0.
 Definition zlen {A} (l : list A) : Z := Z.of_nat (length l).
 
 (* ---- process world ---- *)
-Inductive pstate := PNone | PRunning | PExited (c : Z) | PKilled.
-Definition is_running (p : pstate) : bool := match p with PRunning => true | _ => false end.
+Inductive pstate := PNone | PRunning | PStubborn | PExited (c : Z) | PKilled.
+Definition is_running (p : pstate) : bool := match p with PRunning | PStubborn => true | _ => false end.
 
 (* ---- program counters ---- *)
 Inductive kpc := KGet | KPoll | KLock | KKill | KWait | KDel | KPub | KAdv.
@@ -117,11 +121,14 @@ Definition kstep (u : Z) (k : kpc) (s : state) : state * option kpc * list event
       (set_tasks s (upd (tasks s) u false), if f then Some KKill else None,
        [ev K_LOCK L_CHECK 0; ev K_TASKS_IN u (b2z f)] ++ (if f then [ev K_TASKS_DEL u 1] else []), [])
   | KKill =>         (* launcher.cancel_task(task, proc.pid): killpg TERM, killpg KILL *)
-      let r := is_running (world s u) in
-      (set_world s (if r then upd (world s) u PKilled else world s), Some KWait,
-       [ev K_PID u 1] ++ (if r then [ev K_KILL u 1; ev K_KILL u 0] else [ev K_KILL u 0]), [])
-  | KWait =>         (* proc.wait() *)
-      (s, Some KDel, [ev K_WAIT u (b2z (negb (is_running (world s u))))], [])
+      match world s u with
+      | PRunning => (set_world s (upd (world s) u PKilled), Some KWait, [ev K_PID u 1; ev K_KILL u 1; ev K_KILL u 0], [])
+      | PStubborn => (s, Some KWait, [ev K_PID u 1; ev K_KILL u 2; ev K_KILL u 2], [])   (* both signals without effect *)
+      | _ => (s, Some KWait, [ev K_PID u 1; ev K_KILL u 0], [])                          (* OSError: already gone *)
+      end
+  | KWait =>         (* proc.wait(): blocks -- the thread has no step -- until the process has exited *)
+      if is_running (world s u) then (s, Some KWait, [], [])
+      else (s, Some KDel, [ev K_WAIT u 1], [])
   | KDel =>          (* try: del task['proc'] except KeyError *)
       (set_procattr s (upd (procattr s) u false), Some KPub, [ev K_PROC_DEL u (b2z (procattr s u))], [])
   | KPub =>          (* exit_code = None; target_state = CANCELED; publish(AGENT_UNSCHEDULE_PUBSUB, task) *)
@@ -176,7 +183,8 @@ Definition istep (s : state) : state * list event * list emission :=
       | ITSpawn =>           (* task['proc'] = sp.Popen(...) *)
           match d_fault x with
           | FSpawn => (set_ipc s (ITask ITXLock x rest), [ev K_SPAWN u 0], [])
-          | _ => (set_ipc (set_procattr (set_world s (upd (world s) u PRunning)) (upd (procattr s) u true))
+          | _ => (set_ipc (set_procattr (set_world s (upd (world s) u (if d_stub x then PStubborn else PRunning)))
+                                        (upd (procattr s) u true))
                           (ITask ITPid x rest), [ev K_SPAWN u 1; ev K_PROC_SET u 0], [])
           end
       | ITPid =>             (* _pids.append(task['proc'].pid) *)
